@@ -116,6 +116,7 @@ func genIndifferentCfg(r *R) Cfg {
 }
 
 func (c09) Gen(r *R, tier string) any {
+	allowHugeOriginLists = false
 	observeUnknownAPI = false
 	p := &C09Plan{A: genObservableCfg(r), B: genObservableCfg(r), StartZero: r.P(0.5), Probe: r.Intn(12)}
 	if r.P(0.2) {
